@@ -67,6 +67,15 @@ def conversations():
     C['rq-find-burst'] = ('rq', [([], [U('assoc_rq')]), ([ac], [U('pdata', 1)]), (_find_rsps(), [U('release_rq')]), ([relp], [])])
     C['rq-release-collision'] = ('rq', [([], [U('assoc_rq')]), ([ac], [U('release_rq')]), ([rel], [U('release_rp')]), ([relp], [])])
     C['rq-ac-close'] = ('rq', [([], [U('assoc_rq')]), ([ac, echo, 'CLOSE'], [])])
+    # the peer sends its last PDUs and closes at once (the usual way an abort or a reject ends)
+    C['ac-abort-close'] = ('ac', [([rq], [U('accept')]), ([ab, 'CLOSE'], [])])
+    C['ac-two-echo-close'] = ('ac', [([rq], [U('accept')]), ([echo, echo, 'CLOSE'], [])])
+    C['ac-store-close'] = ('ac', [([rq], [U('accept')]), (_store_frags() + ['CLOSE'], [])])
+    C['ac-release-close'] = ('ac', [([rq], [U('accept')]), ([echo, rel, 'CLOSE'], [])])
+    C['rq-rj-close'] = ('rq', [([], [U('assoc_rq')]), ([e2.std_rj(2, 3, 1), 'CLOSE'], [])])
+    # endings started by the local user
+    C['ac-local-abort'] = ('ac', [([rq], [U('accept')]), ([echo], [U('abort', 0, 2)]), (['CLOSE'], [])])
+    C['rq-local-abort'] = ('rq', [([], [U('assoc_rq')]), ([ac], [U('abort', 0, 0)]), (['CLOSE'], [])])
     return C
 
 
@@ -80,7 +89,7 @@ def conv():
     return _CONV
 
 
-def build_history(name, burst_idx=None, cuts=(), dribble=False):
+def build_history(name, burst_idx=None, cuts=(), dribble=False, close_with_last=False):
     """-> (history, round index of every history position).  Burst `burst_idx` is delivered in the segments
     defined by `cuts` (offsets into the concatenated burst); all other bursts one PDU per segment."""
     role, rounds = conv()[name]
@@ -97,10 +106,11 @@ def build_history(name, burst_idx=None, cuts=(), dribble=False):
                 segs = [data[b[i]:b[i + 1]] for i in range(len(b) - 1)]
         else:
             segs = pdus
-        for sgm in segs:
-            hist.append(('bytes', sgm))
+        glue = closing and close_with_last and ri == burst_idx and segs
+        for k, sgm in enumerate(segs):
+            hist.append(('bytes_close' if glue and k == len(segs) - 1 else 'bytes', sgm))
             owner.append(ri)
-        if closing:
+        if closing and not glue:
             hist.append(('close',))
             owner.append(ri)
         for r in reactions:
@@ -111,7 +121,7 @@ def build_history(name, burst_idx=None, cuts=(), dribble=False):
 
 def observe(role, hist, owner, nrounds, recv_limit=None, prequeue=0, deviations=None):
     # a deviation may only bring forward the next segment of the same burst (never a local reaction or another round)
-    guard = lambda pos: pos > 0 and hist[pos][0] == 'bytes' and hist[pos - 1][0] == 'bytes' and owner[pos] == owner[pos - 1]
+    guard = lambda pos: pos > 0 and hist[pos][0] in ('bytes', 'bytes_close') and hist[pos - 1][0] == 'bytes' and owner[pos] == owner[pos - 1]
     env = e2.Env(role, hist, recv_limit=recv_limit, prequeue=prequeue, deviations=deviations, budget=3000, dev_guard=guard).run()
     per = [{'inds': [], 'wire': [], 'close': 0} for _ in range(nrounds)]
     # steps[0] is start-up; step i (1-based) belongs to history position i-1, except pre-queued positions
@@ -133,10 +143,10 @@ def observe(role, hist, owner, nrounds, recv_limit=None, prequeue=0, deviations=
     return {'rounds': per, 'final': (fin['status'], fin['exc'], fin['state'], fin['sock'], fin['timer'], len(fin['raw_pdu']))}
 
 
-RULE = ('16 conversations (10 acceptor-side, 6 requestor-side: echo, 3-fragment store, two requests in one burst, RQ+A-ABORT, RQ+close, '
+RULE = ('23 conversations (acceptor- and requestor-side: echo, 3-fragment store, two requests in one burst, RQ+A-ABORT, RQ+close, '
         'P-DATA x2 + A-ABORT, release by peer, release collision, reject, unknown PDU, RJ, AC+A-ABORT, multi-PDU response burst) x every '
         'burst x {every single cut offset, every pair of cut offsets (quick: on a stride), all k=3 cut sets on PDU-header boundaries '
-        '+-1, one-byte dribble, everything-at-once} x recv() size limit {none, 1, 6, 7} x first segment already waiting at start-up '
+        '+-1, one-byte dribble, everything-at-once, peer close already visible with the last segment} x recv() size limit {none, 1, 6, 7} x first segment already waiting at start-up '
         '{no, yes} x <=1 deviation (next segment delivered at a non-quiescent loop head); the per-round observation log (indications '
         'with contents, PDUs sent, close calls, final state, leftover buffer) must equal that of the canonical delivery (one PDU per '
         'segment). distinct/non-trivial = distinct (conversation, burst, cut set, recv limit, pre-queue, deviation)')
@@ -160,6 +170,16 @@ def cases(tier, seed):
                     for c in range(1, L):
                         if rl is None or c % 3 == 0 or c < 12 or thorough:
                             yield {'conv': name, 'burst': bi, 'cuts': [c], 'recv': rl, 'pre': pre}
+                if 'CLOSE' in burst:
+                    # the close is already visible when the last segment is read
+                    for rl in (None, 1, 7):
+                        yield {'conv': name, 'burst': bi, 'cuts': [], 'recv': rl, 'pre': pre, 'glue': True}
+                        for c in range(1, L, 1 if thorough else 5):
+                            yield {'conv': name, 'burst': bi, 'cuts': [c], 'recv': rl, 'pre': pre, 'glue': True}
+                    for c in bounds:
+                        for d in (-1, 0, 1):
+                            if 0 < c + d < L:
+                                yield {'conv': name, 'burst': bi, 'cuts': [c + d], 'recv': None, 'pre': pre, 'glue': True}
                 # pairs
                 stride = 1 if thorough else max(1, L // 28)
                 pts = sorted(set(list(range(1, L, stride)) + [b + d for b in [0] + bounds for d in (-1, 1, 5, 6, 7) if 0 < b + d < L]))
@@ -199,7 +219,7 @@ def run_case(case):
         return {'viol': [('c03:canonical-run-fails:%s' % name, 'canonical delivery of %s ends with %r' % (name, ref['final']))],
                 'case': case, 'key': None}
     dribble = case['cuts'] == 'dribble'
-    role, hist, owner = build_history(name, case['burst'], () if dribble else case['cuts'], dribble)
+    role, hist, owner = build_history(name, case['burst'], () if dribble else case['cuts'], dribble, case.get('glue', False))
     dev = {d: True for d in case.get('dev', [])} or None
     got = observe(role, hist, owner, nr, case['recv'], case['pre'], dev)
     viol = []
@@ -215,10 +235,10 @@ def run_case(case):
                 break
         if not diff:
             diff = 'final %r versus canonical %r' % (got['final'], ref['final'])
-        kind = 'pre' if case['pre'] else ('dev' if dev else ('recv' if case['recv'] else 'cut'))
+        kind = 'pre' if case['pre'] else ('dev' if dev else ('close-with-data' if case.get('glue') else ('recv' if case['recv'] else 'cut')))
         viol.append(('c03:%s:%s' % (name, kind), 'delivery %s differs from one-PDU-per-segment delivery: %s' % (
             {k: case[k] for k in ('burst', 'cuts', 'recv', 'pre', 'dev') if k in case}, diff)))
-    key = (name, case['burst'], tuple(case['cuts']) if not dribble else 'dribble', case['recv'], case['pre'], tuple(case.get('dev', [])))
+    key = (name, case['burst'], tuple(case['cuts']) if not dribble else 'dribble', case['recv'], case['pre'], tuple(case.get('dev', [])), case.get('glue', False))
     return {'viol': viol, 'case': case if viol else None, 'key': key,
             'sample': case if case['cuts'] == [6, 7] else None}
 
